@@ -43,6 +43,15 @@ SPECS = {
         seq_mode="histories",
         cap={"quick": 600, "thorough": 6000},
     ),
+    "C12": pcheck.PSpec(
+        "C12",
+        clauses=["Accepts", "Compiles", "RowsMatch", "SpuriousFault", "BookingFault", "SchemaMatches"],
+        profiles={"quick": [("MCQueryGen_math.cfg", None), ("MCQueryGen_math_ctx.cfg", None)],
+                  "thorough": [("MCQueryGen_math.cfg", None), ("MCQueryGen_math_ctx.cfg", None)]},
+        events={"quick": 4, "thorough": 10},
+        cap={"quick": 800, "thorough": 30000},
+        math=True,
+    ),
     "C13": pcheck.PSpec(
         "C13",
         clauses=["Accepts", "RowsMatch", "SchemaMatches", "SpuriousFault", "Compiles", "BookingFault"],
